@@ -314,7 +314,7 @@ func (w *workManager) loadRecursive(paths []string) uint64 {
 		if !Options.AllFiles {
 			// Skip traversing into hidden dirs
 			name := filepath.Base(path)
-			if len(name) > 1 && strings.HasPrefix(name, ".") {
+			if len(name) > 1 && name != ".." && strings.HasPrefix(name, ".") {
 				return filepath.SkipDir
 			}
 		}
